@@ -49,7 +49,9 @@ META = {
         "roles._roles[''] after the render as its sibling docutils.parsers.rst.Parser.parse does. R2: save/restore pairs in "
         "finally blocks - the saved name is read from the restored place before the try (or under the same conditions as the "
         "restore), is a copy when the place is mutated in place, shared state is not changed before the try is entered, undo "
-        "operations match their forward operation. R3: lru_cache functions are pure functions of immutable scalars. R4: the "
+        "operations match their forward operation. R3: lru_cache functions are pure functions of immutable scalars and return an immutable value - not a list/dict, not an "
+        "instance of a stateful package or library class (a cached parser/tokenizer/template environment is one object shared "
+        "by every parse). R4: the "
         "parser each parse method renders with originates from a MarkdownIt(...) constructed during that call (followed through "
         "helpers, parameters, returns); no parser/renderer instance at module or class level. R5: every renderer attribute "
         "written during a render is stored unconditionally by setup_render, which render() calls first. R6: document-scoped "
@@ -68,7 +70,7 @@ META = {
     "trusted_base": [
         "CPython ast",
         "engine call graph incl. frozen special edges (their patterns are re-applied module-wide by this module)",
-        "tables in this module: ENV_API / ENV_PURE / ENV_ARG_API / ENV_MERGED / SETTINGS_API / REGISTRY_CALLS / FRESH_CALLS / STATEFUL_CTORS / RESET_EXCEPTIONS",
+        "tables in this module: ENV_API / ENV_PURE / ENV_ARG_API / ENV_MERGED / SETTINGS_API / REGISTRY_CALLS / FRESH_CALLS / STATEFUL_CTORS / IMMUTABLE_RESULTS / RESET_EXCEPTIONS",
         "sibling sources docutils/parsers/rst/__init__.py and directives/misc.py (default-role oracle)",
     ],
     "assumptions": [
@@ -1306,19 +1308,85 @@ def _purity_problems(ef: Effects, fi: FunctionInfo, depth: int = 0) -> list[str]
             for t in targets:
                 if isinstance(t, FunctionInfo):
                     if depth < 2:
-                        out += [f"{t.qualname}: {p}" for p in _purity_problems(ef, t, depth + 1) if "parameter" not in p]
+                        out += [f"{t.qualname}: {p}" for p in _purity_problems(ef, t, depth + 1) if "parameter" not in p and "cached method" not in p]
+                    elif t.name in ("__init__", "__post_init__", "__new__"):
+                        continue  # nested construction: an allocation (the cached result is judged on the return value)
                     else:
                         raise Unsupported(f"cached function {fi.fq}: call chain deeper than 2 at {d}")
                 elif isinstance(t, External):
                     nm = str(t)
                     base = nm.rsplit(".", 1)[-1]
+                    if nm.startswith("pathlib.") and base[:1].isupper():
+                        continue  # building a path object touches nothing
                     if base in IMPURE_NAMES or nm.startswith(("os.", "time.", "random.", "uuid.", "urllib.request.", "pathlib.", "io.", "sys.")) and not nm.startswith("os.path.join"):
                         out.append(f"calls `{nm}` (I/O or process state)")
                     elif nm.startswith(PURE_EXTERNAL) or base in PURE_BUILTINS:
                         continue
+                    elif base in ("__init__", "__new__", "__post_init__") or (base[:1].isupper() and not nm.startswith(("socket.", "subprocess.", "http.", "ssl."))):
+                        continue  # constructing an object is an allocation; whether the *result* may be cached is judged on the return value
+                    elif base in STATEFUL_CTORS or fi.name in ("__init__", "__post_init__", "__new__"):
+                        continue  # container construction / helper calls while building the object
                     else:
                         raise Unsupported(f"cached function {fi.fq}: purity of external call `{nm}` unknown")
     return out
+
+
+IMMUTABLE_RESULTS = {"re.compile", "frozenset", "tuple", "str", "int", "float", "bool", "bytes", "builtins.frozenset", "builtins.tuple", "builtins.str", "fractions.Fraction", "decimal.Decimal", "pathlib.PurePosixPath", "pathlib.Path", "pathlib.PurePath"}
+
+
+def _class_is_immutable(corpus: Corpus, ci) -> bool:
+    for c in corpus.mro(ci):
+        if any(b.rsplit(".", 1)[-1] in ("NamedTuple", "Enum", "IntEnum", "StrEnum", "Flag") for b in c.bases):
+            return True
+        for d in c.node.decorator_list:
+            if isinstance(d, ast.Call) and (dotted(d.func) or "").endswith("dataclass") and any(k.arg == "frozen" and isinstance(k.value, ast.Constant) and k.value.value is True for k in d.keywords):
+                return True
+    return False
+
+
+def _cached_value_mutability(ef: Effects, v: ast.expr, fi: FunctionInfo, depth: int = 0) -> str | None:
+    """Reason why the value a cached function returns is a mutable object that all callers would share (None: immutable / unknown)."""
+    if depth > 3:
+        return None
+    if isinstance(v, (ast.List, ast.Dict, ast.Set, ast.ListComp, ast.DictComp, ast.SetComp)):
+        return f"returns the mutable `{short(v, 30)}` that every caller shares"
+    if isinstance(v, ast.Name):
+        f, binds = ef.lookup(v.id, fi)
+        vals = [x for kind, x, p_ in binds or [] if kind == "assign" and x is not None and not p_]
+        for x in vals:
+            r = _cached_value_mutability(ef, x, f, depth + 1)
+            if r:
+                return r
+        return None
+    if isinstance(v, ast.IfExp):
+        return _cached_value_mutability(ef, v.body, fi, depth + 1) or _cached_value_mutability(ef, v.orelse, fi, depth + 1)
+    if isinstance(v, ast.Call):
+        name = ef.callee_name(v, fi)
+        if name in IMMUTABLE_RESULTS or (dotted(v.func) or "") in IMMUTABLE_RESULTS:
+            return None
+        ci = ef.c.find_class(name) if name else None
+        if ci is None and isinstance(v.func, ast.Name):
+            ci = ef.c.find_class(fi.module.resolve(v.func.id))
+        if ci is not None:
+            if _class_is_immutable(ef.c, ci):
+                return None
+            writers = sorted({m.name for c in ef.c.mro(ci) for m in c.methods.values() if m.name not in ("__init__", "__post_init__") and any(
+                isinstance(n, (ast.Assign, ast.AugAssign, ast.AnnAssign)) and any(isinstance(t, ast.Attribute) and isinstance(t.value, ast.Name) and t.value.id == "self" for t0 in (n.targets if isinstance(n, ast.Assign) else [n.target]) for t, _ in _flatten(t0)) for n in walk_local(m.node)
+            )})
+            ext = ef.c.external_bases(ci)
+            return f"returns a `{ci.name}` instance that every caller then shares: it is a stateful object (" + (f"methods {', '.join(writers[:3])} write its attributes" if writers else f"subclass of {ext[0] if ext else 'object'}") + "), so what one parse leaves in it is seen by the next"
+        last = name.rsplit(".", 1)[-1] if name else ""
+        if last[:1].isupper() and "." in name:
+            return f"returns a `{name}` instance (a mutable library object) that every caller then shares"
+        # a package function: its own returns
+        for t in ef.g.flat_targets(ef.g.resolve_call(v, fi)):
+            if not t.is_lambda and t.name not in ("__init__", "__post_init__"):
+                for n in walk_local(t.node, into_lambdas=False):
+                    if isinstance(n, ast.Return) and n.value is not None:
+                        r = _cached_value_mutability(ef, n.value, t, depth + 1)
+                        if r:
+                            return r
+    return None
 
 
 @rule("C15.R3")
@@ -1339,6 +1407,10 @@ def r3_pure_caches(corpus: Corpus, rep: Report, tier: str):
         ret = unparse(fi.node.returns) if fi.node.returns is not None else ""
         if any(ret.startswith(m) or f"[{m}" in ret or ret == m for m in MUTABLE_RETURN):
             problems.append(f"returns a mutable `{ret}` that every caller shares")
+        for r_ in [n for n in walk_local(fi.node, into_lambdas=False) if isinstance(n, ast.Return) and n.value is not None]:
+            verdict = _cached_value_mutability(ef, r_.value, fi)
+            if verdict:
+                problems.append(verdict)
         if problems:
             rep.violation("C15.R3", k, fi.site(), f"{fi.qualname} is cached for the life of the process but " + "; ".join(sorted(set(problems))[:4]))
         else:
@@ -2548,4 +2620,25 @@ def mutants(corpus: Corpus):
     st = find_stmt(f, lambda n: isinstance(n, ast.Expr) and isinstance(n.value, ast.Call) and unparse(n.value.func).endswith("_roles.pop"))
     if st is not None:
         add("c15-default-role-reset-only-when-one-existed-before", "C15.R1", f, splice(f.module.src, st, "if _had_default_role:\n" + indent_of(f, st) + "    " + _seg(f, st)).replace("        self.setup_parse(inputstring, document)", "        from docutils.parsers.rst import roles as _roles0\n\n        _had_default_role = '' in _roles0._roles\n        self.setup_parse(inputstring, document)", 1), "reset after render")
+    # --- round-4 class: a cache that hands out one stateful object to every parse ---------------------
+    ph = corpus.mod("parsers.parse_html")
+    f = ph.func("tokenize_html")
+    c = find_node(f, lambda n: isinstance(n, ast.Call) and dotted(n.func) == "HtmlToAst")
+    if c is not None:
+        helper = "\n\nfrom functools import lru_cache\n\n\n@lru_cache(maxsize=8)\ndef _get_tokenizer(name: str, convert_charrefs: bool) -> HtmlToAst:\n    return HtmlToAst(name, convert_charrefs=convert_charrefs)\n"
+        add("c15-cached-html-tokenizer-instance", "C15.R3", f, splice(ph.src, c, "_get_tokenizer(name, convert_charrefs)") + helper, "_get_tokenizer")
+    else:
+        out.append(("c15-cached-html-tokenizer-instance", "HtmlToAst(...) construction in tokenize_html not found"))
+    f = base.func("DocutilsRenderer.render_substitution")
+    c = find_node(f, lambda n: isinstance(n, ast.Call) and unparse(n.func) == "jinja2.Environment")
+    if c is not None:
+        helper = "\n\nimport functools\n\n\n@functools.lru_cache(maxsize=None)\ndef _substitution_env():\n    return " + _seg(f, c) + "\n"
+        add("c15-cached-jinja-environment", "C15.R3", f, splice(base.src, c, "_substitution_env()") + helper, "_substitution_env")
+    else:
+        out.append(("c15-cached-jinja-environment", "jinja2.Environment(...) in render_substitution not found"))
+    inv = corpus.mod("inventory")
+    f = inv.func("filter_string")
+    rl = find_node(f, lambda n: isinstance(n, ast.Return) and n.value is not None)
+    if rl is not None:
+        add("c15-cached-function-returns-its-working-list", "C15.R3", f, _multi_splice(inv.src, [(f.node, "@functools.lru_cache(maxsize=64)\n" + _seg(f, f.node).replace(_seg(f, rl), "return str_items", 1))]), "filter_string")
     return out
